@@ -79,6 +79,10 @@ type crashImage struct {
 
 var dbProfile = "mixed"
 
+// noSMove: a concurrent run that is judged line by line leaves SMove* out (finding D-SMOVE: they mutate the
+// committed set index under the read lock, so what concurrent readers see is not a function of the lock order)
+var noSMove bool
+
 func init() {
 	suites["db"] = func() suite {
 		return &dbSuite{profile: dbProfile}
@@ -1171,8 +1175,14 @@ func (s *dbSuite) genOp(r *rand.Rand, dead bool) string {
 		case 14:
 			return fmt.Sprintf("sunion2 %s %s %s %s", hb, hx(k), hx([]byte(b2)), hx(k2))
 		case 15, 16:
+			if noSMove {
+				return fmt.Sprintf("sismember %s %s %s", hb, hx(k), hx(pickVal(r)))
+			}
 			return fmt.Sprintf("smove1 %s %s %s %s", hb, hx(k), hx(k2), hx(pickVal(r)))
 		default:
+			if noSMove {
+				return []string{"smembers", "scard", "shaskey"}[r.Intn(3)] + " " + hb + " " + hx(k)
+			}
 			return fmt.Sprintf("smove2 %s %s %s %s %s", hb, hx(k), hx([]byte(b2)), hx(k2), hx(pickVal(r)))
 		}
 	default: // zset
